@@ -20,6 +20,9 @@ WHAT = {
     "C03": ("cola.fns.add", "algebraic expressions act as the same expression on the dense matrices; operands unchanged",
             "sums / differences / products / scalar multiples and divisions / Kronecker products and sums / block diagonals over Dense, Diagonal, Identity, ScalarMul, Triangular, real and complex, "
             "mixed dtypes, n <= 4"),
+    "C05": ("cola.annotations.get_annotations", "every annotation reported by a sub-operator A[rows, cols] of a declared SelfAdjoint / PSD operator, and by sums / Kronecker products / block diagonals / "
+            "Gram products of declared operators, is true of the dense matrix", "5x5 real SPD and complex Hermitian PD Dense operators and sums of them; every pair of slices with steps in {1, -1, 2, -2} and a few offsets, "
+            "index arrays (equal, permuted, repeated, boolean-like), mixed slice / index array; composites of annotated parts (inputs avoid the open C05 findings: no scalar factors, no complex transposes)"),
     "C06": ("cola.linalg.inverse.inv.inv", "A (inv(A) b) = b per column, dense form, transpose and left product on the direct paths",
             "Dense / PSD / Triangular / Diagonal / ScalarMul / Identity / Permutation / Kronecker / BlockDiag / Product / scalar multiples, real and complex, n <= 12; Auto, LU, Cholesky, CG; "
             "vectors and blocks whose column norms spread over 9 orders of magnitude"),
@@ -340,6 +343,56 @@ def main():
                     xl = attempt(f"B @ inv({name}, {an})", lambda: np.asarray(bl @ Ai))
                     if xl is not None and rel(xl, bl @ np.linalg.inv(D)) > 1e-8:
                         found(clause="left product with inv(A)", input=f"(2 x {n} block) @ inv({name}, {an})", observed=f"relative deviation {rel(xl, bl @ np.linalg.inv(D)):.2e}", expected="<= 1e-8")
+    elif prop == "C05":
+        def true_of(a, D):
+            herm_ = D.shape[0] == D.shape[1] and np.linalg.norm(D - D.conj().T) <= 1e-9 * max(1.0, np.linalg.norm(D))
+            if a == "SelfAdjoint":
+                return herm_
+            if a == "PSD":
+                return herm_ and (D.size == 0 or np.linalg.eigvalsh((D + D.conj().T) / 2).min() >= -1e-9)
+            if a == "Unitary":
+                return D.shape[0] == D.shape[1] and np.linalg.norm(D.conj().T @ D - np.eye(D.shape[1])) <= 1e-9
+            if a == "Stiefel":
+                return np.linalg.norm(D.conj().T @ D - np.eye(D.shape[1])) <= 1e-9
+            return True
+
+        def audit(label, op, D):
+            n_cases[0] += 1
+            for a in sorted(x.__name__ for x in op.annotations):
+                if not true_of(a, D):
+                    found(clause="a reported annotation is true of the dense matrix", input=label, observed=f"reports {a}; |D - D^H| = {np.linalg.norm(D - D.conj().T) if D.shape[0] == D.shape[1] else float('nan'):.3g}", expected=f"{a} only if true")
+        n = 5
+        sls = [slice(None), slice(None, None, -1), slice(0, 4), slice(1, 5), slice(3, None, -1), slice(None, None, 2), slice(None, None, -2), slice(1, 4), slice(4, 0, -1), slice(0, 4, 2), slice(3, None, -2)]
+        ias = [np.array([0, 2, 4]), np.array([4, 0, 2]), np.array([2, 2, 0]), np.array([0, 0, 2]), np.array([1, 3]), np.array([3, 1]), np.array([0, 1, 2, 3, 4]), np.array([4, 3, 2, 1, 0])]
+        for cplx in (False, True):
+            t = "complex Hermitian PD" if cplx else "real SPD"
+            P = hpd(n, cplx)
+            for decl in ("PSD", "SelfAdjoint"):
+                bases = [(f"{decl}(Dense) {t}", getattr(cola, decl)(Dense(P)), P), (f"{decl}(Dense) + {decl}(Dense) {t}", getattr(cola, decl)(Dense(P / 2)) + getattr(cola, decl)(Dense(P / 2)), P)]
+                for bn, A, D in bases:
+                    for r in sls + ias:
+                        for c in sls + ias:
+                            rr = np.arange(n)[r] if isinstance(r, slice) else r
+                            cc = np.arange(n)[c] if isinstance(c, slice) else c
+                            lab = f"({bn})[{r}, {c}]".replace("slice", "s").replace("array", "")
+                            try:
+                                S = A[r, c]
+                            except Exception:
+                                continue
+                            if not hasattr(S, "annotations"):
+                                continue
+                            audit(lab, S, D[rr][:, cc])
+            A1, A2 = cola.PSD(Dense(P)), cola.PSD(Dense(hpd(2, cplx)))
+            X = Dense(rnd(4, 3, cplx=cplx)) + Dense(np.zeros((4, 3)))
+            xd = dn(X)
+            audit(f"Kronecker(PSD, PSD) {t}", Kronecker(A1, A2), np.kron(P, dn(A2)))
+            audit(f"BlockDiag(PSD, PSD; 2, 1) {t}", BlockDiag(A2, A1, multiplicities=[2, 1]), scipy.linalg.block_diag(dn(A2), dn(A2), P))
+            audit(f"PSD + PSD {t}", A1 + A1, 2 * P)
+            audit(f"X.H @ X {t}", X.H @ X, xd.conj().T @ xd)
+            audit(f"X @ X.H {t}", X @ X.H, xd @ xd.conj().T)
+            Y = cola.PSD(Dense(hpd(3, cplx)))
+            audit(f"X.H @ X @ PSD(Y) {t}", X.H @ X @ Y, xd.conj().T @ xd @ dn(Y))
+            audit(f"PSD(Y) @ X.H @ X {t}", Y @ X.H @ X, dn(Y) @ xd.conj().T @ xd)
     elif prop == "C08":
         from cola.linalg.trace.diag_trace import diag, trace
         from cola.linalg.trace.diagonal_estimation import Exact
@@ -513,6 +566,13 @@ def main():
                     (f"Kronecker(PSD, PSD) {t}", pKron(pPSD(hpd(2, cplx) / 2), pPSD(hpd(3, cplx) / 3)), False),
                     (f"general, eigenvalues in the right half plane, {t.split()[0]}", pD(wc(4, cplx) / 4), False)]
         ops += [("ScalarMul 1.7 (3x3)", (ScalarMul(1.7, (3, 3), np.float64), 1.7 * np.eye(3)), False), ("Identity", (Identity((3, 3), np.float64), np.eye(3)), False)]
+        # products whose annotations the library infers from their shape: the Gram product X^T X (rightly PSD) and the longer, non-symmetric X^T X C with a positive
+        # diagonal C (real positive spectrum, well-conditioned eigenvectors: inside the property's domain; whatever Auto does with the inferred labels must give f of THIS matrix)
+        xa = 0.4 * rnd(5, 5) + np.diag(rng.uniform(1.0, 2.0, 5))
+        cd = rng.uniform(0.5, 2.5, 5)
+        Xop = Dense(xa) + Diagonal(np.zeros(5))
+        ops += [("X^T X (X a Sum, lazy transpose)", (Xop.T @ Xop, xa.T @ xa), False), ("X^T X C (C a positive Diagonal)", (Xop.T @ Xop @ Diagonal(cd), xa.T @ xa @ np.diag(cd)), False),
+                ("C X X^T", (Diagonal(cd) @ Xop @ Xop.T, np.diag(cd) @ xa @ xa.T), False)]
         for name, (A, D), herm in ops:
             n = D.shape[0]
             V = rnd(n, 3, cplx=True)
